@@ -134,3 +134,25 @@ def _scope_leak(repo, ob, failure):
             return {"input": doc, "input_description": name, "observed": "text rendered as [LEAK]: the binding escaped its element",
                     "expected": "[$k] left verbatim (undefined outside the element)"}
     return None
+
+
+@generator("C05.")
+def _fixed_point(repo, ob, failure):
+    """T(T(x)) must equal T(x) byte for byte"""
+    docs = [
+        '<svg xmlns="http://example.com/x"><rect wh="5"/></svg>',
+        '<svg><rect wh="5" text="a &quot;b&quot;"/></svg>',
+        '<svg><rect wh="5" text="x &amp; y"/></svg>',
+        '<svg><rect wh="5"/></svg>',
+        '<svg><text xy="1">a &lt; b</text></svg>',
+    ]
+    for doc in docs:
+        r1 = run_svgdx(repo, doc)
+        if r1["rc"] != 0:
+            continue
+        r2 = run_svgdx(repo, r1["out"])
+        if r2["rc"] != 0 or r2["out"] != r1["out"]:
+            import difflib
+            d = "\n".join(list(difflib.unified_diff(r1["out"].split("\n"), r2["out"].split("\n"), lineterm="", n=0))[:12])
+            return {"input": doc, "observed": "second pass differs (rc=%s): %s" % (r2["rc"], d[:600]), "expected": "byte-identical output"}
+    return None
